@@ -687,3 +687,40 @@ Proof.
   rewrite glue_date_subtract_is_add, A; unfold date_subtract; change US_PER_DAY with us_per_day;
   replace (- 0) with 0 by lia; destruct (gres_date _); reflexivity.
 Qed.
+
+(* ---------- pendulum._safe_timezone on every argument kind, and DateTime.instance with a foreign tzinfo ---------- *)
+Definition safe_tz_table (o : gtzarg) : gtz :=
+  if ta_kind o =? 0 then ta_tz o                                           (* a pendulum timezone object: itself *)
+  else if ta_kind o =? 4 then g_fixed_tz (ta_hours o * 3600)               (* a number of hours: the FixedTimezone of that offset *)
+  else if ta_kind o =? 5 then                                              (* a foreign tzinfo, in THIS order: *)
+    if ta_has_key o then ta_key_named o                                    (*   .key (zoneinfo)  -> Timezone(key) *)
+    else if ta_has_localize o then ta_zone_named o                         (*   .localize (pytz) -> Timezone(obj.zone) *)
+    else if ta_tzname_utc o then g_UTC                                     (*   tzname(None) == "UTC" -> pendulum.UTC *)
+    else g_fixed_tz (Z.quot (match ta_utcoffset o with Some us => us | None => 0 end) 1000000)   (* utcoffset(dt), None = 0, truncated to seconds *)
+  else if ta_kind o =? 7 then g_fixed_tz (ta_offset o)
+  else ta_named o.                                                         (* a name: the cached Timezone *)
+
+Theorem glue_safe_timezone_spec o : glue_safe_timezone o = safe_tz_table o.
+Proof.
+  unfold glue_safe_timezone, safe_tz_table. cbv zeta.
+  destruct (ta_kind o =? 0) eqn:K0; [reflexivity|]. destruct (ta_kind o =? 4) eqn:K4.
+  - unfold g_timezone, ta_of_offset. cbn [ta_kind ta_offset Z.eqb Pos.eqb]. f_equal. lia.
+  - destruct (ta_kind o =? 5) eqn:K5.
+    + destruct (ta_has_key o); [reflexivity|]. destruct (ta_has_localize o); [reflexivity|]. destruct (ta_tzname_utc o); [reflexivity|].
+      unfold g_timezone, ta_of_offset. cbn [ta_kind ta_offset Z.eqb Pos.eqb]. destruct (ta_utcoffset o); reflexivity.
+    + unfold g_timezone. destruct (ta_kind o =? 7); reflexivity.
+Qed.
+
+Theorem glue_instance_foreign_spec W f tzo tzarg : wall_in_range W = true ->
+  glue_DateTime_instance_foreign (mkgfdt W (Z.b2z f) tzo) tzarg = g_build (option_map safe_tz_table (opt_ta_or tzo tzarg)) W f false.
+Proof.
+  intros R. unfold glue_DateTime_instance_foreign. cbv beta zeta. cbn [fd_tz fd_fold].
+  pose proof (fun t => create_from_own_fields t W f false R) as C. cbv zeta in C.
+  change (fd_gdt (mkgfdt W (Z.b2z f) tzo)) with (mkgdt W (Z.b2z f) None).
+  change (g_year (mkgdt W (Z.b2z f) None)) with (g_year (mkgdt W 0 None)). change (g_month (mkgdt W (Z.b2z f) None)) with (g_month (mkgdt W 0 None)).
+  change (g_day (mkgdt W (Z.b2z f) None)) with (g_day (mkgdt W 0 None)). change (g_hour (mkgdt W (Z.b2z f) None)) with (g_hour (mkgdt W 0 None)).
+  change (g_minute (mkgdt W (Z.b2z f) None)) with (g_minute (mkgdt W 0 None)). change (g_second (mkgdt W (Z.b2z f) None)) with (g_second (mkgdt W 0 None)).
+  change (g_microsecond (mkgdt W (Z.b2z f) None)) with (g_microsecond (mkgdt W 0 None)).
+  destruct (opt_ta_or tzo tzarg) as [a|]; cbn [option_map]; cbv zeta; rewrite C; [rewrite glue_safe_timezone_spec|];
+  match goal with |- match ?r with Ok m => Ok m | Raise e => Raise e end = _ => destruct r; reflexivity end.
+Qed.
